@@ -214,6 +214,9 @@ fn explore_env(run: &dyn Fn(&[usize]) -> (Vec<(String, usize, usize)>, Result<()
         out.cov.states += 1;
         out.cov.transitions += pts.len() as u64;
         out.cov.traces_validated += 1;
+        if prefix.iter().any(|&c| c != 0) {
+            out.cov.nontrivial += 1;
+        }
         out.cov.max_depth = out.cov.max_depth.max(pts.len() as u64);
         let choices: Vec<usize> = pts.iter().map(|p| p.2).collect();
         out.cov.observe("schedule", crate::util::fnv(format!("{:?}{:?}", choices.len(), verdict.is_ok()).as_bytes()));
@@ -394,7 +397,7 @@ pub fn check_one(side: &str, wbits: usize, nwords: usize, tail: usize, bound: us
 
 pub fn c11(ctx: &Ctx) -> (CheckMeta, Outcome) {
     let mut tasks: Vec<Task> = vec![];
-    let bound = if ctx.thorough { 3 } else { 2 };
+    let bound = if ctx.thorough { 4 } else { 3 };
     for wbits in [8usize, 16, 32, 64, 128] {
         for nwords in 1..=3usize {
             tasks.push(Box::new(move || {
@@ -413,7 +416,7 @@ pub fn c11(ctx: &Ctx) -> (CheckMeta, Outcome) {
                 }));
             }
         }
-        let depth = if ctx.thorough { 6 } else { 5 };
+        let depth = if ctx.thorough { 7 } else { 6 };
         tasks.push(Box::new(move || {
             let mut out = Outcome::new();
             out.cov.configs.insert(format!("cursor/w{}", wbits));
@@ -425,7 +428,7 @@ pub fn c11(ctx: &Ctx) -> (CheckMeta, Outcome) {
     let meta = CheckMeta {
         property: "C11".into(),
         level: "model_checking".into(),
-        rule: "deviation-bounded exploration of the environment: the Read/Write wrapped by WordAdapter answers every call by an explorer choice (write: whole buffer | every short count 0..len-1 | Interrupted | hard error; flush: Ok | Err; read: as much as possible | every short count | Interrupted | hard error | EOF); ALL schedules with at most 2 (thorough 3) deviations from the default answer, for word sizes 8..128 and sequences of 1..3 words (reads: plus a partial trailing word of 0, 1, W/8-1 bytes); oracle: every write_word that returned Ok has put exactly its native-endian bytes, once and in order, into the sink; every Ok(read_word) is the next W/8 source bytes and exactly those were consumed; a partial trailing word is an error. states = schedules executed, transitions = environment calls. Plus explicit-state BFS (depth 5, thorough 6) of WordAdapter over a seekable Cursor (read_word, write_word, set_word_pos 0..6, word_pos) against a byte-vector model: word_pos = words preceding the cursor after every call, seeking addresses that word. Bit streams through the adapter vs memory are part of C01 (backend 'adapter'), C02/C07 (backends 'cursor', 'bufreader')".into(),
+        rule: "deviation-bounded exploration of the environment: the Read/Write wrapped by WordAdapter answers every call by an explorer choice (write: whole buffer | every short count 0..len-1 | Interrupted | hard error; flush: Ok | Err; read: as much as possible | every short count | Interrupted | hard error | EOF); ALL schedules with at most 3 (thorough 4) deviations from the default answer, for word sizes 8..128 and sequences of 1..3 words (reads: plus a partial trailing word of 0, 1, W/8-1 bytes); oracle: every write_word that returned Ok has put exactly its native-endian bytes, once and in order, into the sink; every Ok(read_word) is the next W/8 source bytes and exactly those were consumed; a partial trailing word is an error. states = schedules executed, transitions = environment calls. Plus explicit-state BFS (depth 6, thorough 7) of WordAdapter over a seekable Cursor (read_word, write_word, set_word_pos 0..6, word_pos) against a byte-vector model: word_pos = words preceding the cursor after every call, seeking addresses that word. Bit streams through the adapter vs memory are part of C01 (backend 'adapter'), C02/C07 (backends 'cursor', 'bufreader')".into(),
         assumptions: vec!["the environment alphabet covers what std::io::Read/Write allow: short transfers, Interrupted, errors".into()],
     };
     (meta, out)
